@@ -734,4 +734,89 @@ theorem executeReal_ends (hver : ∀ t, c.verifyOk t = true) (hopt : c.hasOption
 
 end Strong
 
+/-! ### evaluators that assign fitness values satisfy `EvalOk` -/
+
+theorem evalOk_fitnessEval (fit : Nat → Nat → Org W → W) (solved : Nat → Nat → Pop W → Bool) (t g : Nat) (q : Pop W) :
+    EvalOk q (fitnessEval fit solved t g q).pop := by
+  refine ⟨⟨rfl, rfl, rfl, ?_⟩, ?_, rfl⟩
+  · simp only [fitnessEval, List.map_map]
+    apply List.map_congr_left
+    intro s _
+    simp [C02.ukey, C02.skey, List.map_map, Function.comp_def]
+  · intro x hx
+    obtain ⟨s', hs', x', hx', rfl⟩ := C01.mem_genomesOfPop.mp hx
+    obtain ⟨s, hs, rfl⟩ := List.mem_map.mp hs'
+    obtain ⟨y, hy, rfl⟩ := List.mem_map.mp hx'
+    exact C01.mem_genomesOfPop.mpr ⟨s, hs, y, hy, rfl⟩
+
+/-! ### non-vacuity: a concrete run of 2 trials x 2 generations over the toy integer scalar satisfies every hypothesis
+
+Three organisms spawned from the evolved genome `C01.ev1`; fitness by allocation id, trial and generation; trial 0
+runs both generations unsolved (two turnovers), trial 1 is solved in its generation 0 (no turnover). -/
+section NonVacuity
+open GoNeat.ExactInt
+attribute [local instance] intScalar
+
+def exOpts : EpochOpts Int :=
+  { popSize := 3, dropOffAge := 15, ageSignificance := 1, survivalThresh := 1, babiesStolen := 0, compatThreshold := 3,
+    compat := ⟨1, 1, 1, false⟩, mutateOnlyProb := 100, mutateAddNodeProb := 100, mutateAddLinkProb := 0,
+    mutateConnectSensors := 0, interspeciesMateRate := 0, mateMultipointProb := 0, mateMultipointAvgProb := 0,
+    mateSinglepointProb := 0, mateOnlyProb := 0, mopts := C01.mo }
+
+def exCtl : Ctl := { runs := 2, maxGen := 2, observer := true }
+
+def exEval : Nat → Nat → Pop Int → EvalResult Int :=
+  fitnessEval (fun t g x => 8 * (((x.uid % 3 : Nat) : Int) + 1) + t + g) (fun t g _ => t == 1 && g == 0)
+
+def exStream : List Nat := List.replicate 300 2
+
+def exRun : R (RealOut Int) := executeReal exCtl exOpts C01.ev1 exEval exStream
+
+theorem floatFacts_int : FloatFacts Int :=
+  ⟨fun x t _ _ h => by simpa [Scalar.le, Scalar.mul, Scalar.ofUnit63, Scalar.zero, intScalar] using h,
+   fun x n _ hn _ => by simp [Scalar.floorInt, Scalar.mul, Scalar.div, Scalar.ofUnit63, Scalar.ofInt]; omega⟩
+
+/-- the run returns: its events, its result, and the quota facts hold at every evaluated population (kernel evaluation) -/
+theorem exRun_view :
+    (match exRun with
+     | .ok (out, _) =>
+       decide (out.events = [.started 0, .eval 0 0 0 0, .epoch 0 0, .evaluated 0 0, .eval 0 1 0 1, .epoch 0 1, .evaluated 0 1,
+                             .finished 0, .started 1, .eval 1 0 1 0, .evaluated 1 0, .finished 1]) &&
+       decide (out.result = ⟨[⟨0, [⟨0, 0, false⟩, ⟨1, 0, false⟩]⟩, ⟨1, [⟨0, 1, true⟩]⟩], none⟩) &&
+       decide (∀ tl ∈ out.log, ∀ gl ∈ tl.gens, QuotaOk exOpts gl.after) &&
+       decide (out.log.map (fun (tl : TrialLog Int) => tl.gens.map (fun (gl : GenLog Int) => gl.pop.organisms)) = [[[0, 1, 2], [3, 4, 5]], [[0, 1, 2]]])
+     | .error _ => false) = true := by decide +kernel
+
+/-- every hypothesis of `executeReal_ends` / `executeReal_no_epoch_error` / `executeReal_evaluated_inv` holds of this
+    run, and the conclusions are instantiated: it completes both trials without error, and each of the three
+    populations handed to the evaluator satisfies `PopOk` and `EvalInv` -/
+example : ∃ out rs', exRun = .ok (out, rs') ∧ out.result.err = none ∧ out.result.trials.length = 2 ∧
+    (out.log.map (fun (tl : TrialLog Int) => tl.gens.length)) = [2, 1] ∧
+    (∀ tl ∈ out.log, ∀ gl ∈ tl.gens, PopOk (shape C01.ev1) exOpts gl.pop ∧ EvalInv exOpts C01.ev1 gl.pop) := by
+  have hview := exRun_view
+  cases hrun : exRun with
+  | error e => rw [hrun] at hview; cases hview
+  | ok v =>
+    obtain ⟨out, rs'⟩ := v
+    rw [hrun] at hview
+    simp only [Bool.and_eq_true, decide_eq_true_eq] at hview
+    obtain ⟨⟨⟨_, hres⟩, hq⟩, hlog⟩ := hview
+    have hw : WFT C01.ev1 := by decide
+    have hev : ∀ t g q, EvalOk q (exEval t g q).pop := fun t g q => evalOk_fitnessEval _ _ t g q
+    have hopts : OptsOk exOpts := by decide +kernel
+    have hvs : Valid exStream := by
+      intro x hx
+      obtain ⟨_, rfl⟩ := List.mem_replicate.mp hx
+      decide
+    have hno := executeReal_no_epoch_error floatFacts_int exCtl exOpts C01.ev1 exEval hopts hw rfl hev exStream rs'
+      hvs out hrun hq (fun _ => rfl)
+    have hinv := executeReal_evaluated_inv exCtl exOpts C01.ev1 exEval hw rfl hev exStream rs' out hrun
+    have _hends := executeReal_ends floatFacts_int exCtl exOpts C01.ev1 exEval hopts hw rfl hev exStream rs'
+      hvs out hrun hq (fun _ => rfl) rfl rfl
+    refine ⟨out, rs', rfl, by rw [hres], by rw [hres]; rfl, ?_, fun tl htl gl hgl => ⟨hno.2.2 tl htl gl hgl, (hinv tl htl gl hgl).1⟩⟩
+    have := congrArg (List.map (fun l => l.length)) hlog
+    simpa [List.map_map, Function.comp_def] using this
+
+end NonVacuity
+
 end GoNeat.C20
